@@ -322,6 +322,7 @@ func exec(line string) string {
 type gen struct {
 	r     *hx.Rng
 	class map[string]int
+	nmsg  int
 }
 
 func (g *gen) count(c string) { g.class[c]++ }
@@ -357,15 +358,20 @@ func (g *gen) sk() *big.Int {
 	}
 }
 
+// message lengths cycle through the classes so that every run has empty, one-block,
+// just-over-one-block and long messages
 func (g *gen) msg() []byte {
 	r := g.r
-	switch r.Intn(6) {
+	g.nmsg++
+	switch g.nmsg % 6 {
 	case 0:
 		return []byte{}
 	case 1:
 		return r.Bytes(32)
 	case 2:
 		return []byte{byte(r.Intn(4))}
+	case 3:
+		return r.Bytes(33 + r.Intn(8))
 	default:
 		return r.Bytes(1 + r.Intn(70))
 	}
